@@ -7,6 +7,7 @@ package main
 
 import (
 	"fmt"
+	"go/constant"
 	"go/token"
 	"go/types"
 	"sort"
@@ -351,6 +352,33 @@ func ruleC20Counter(cx *Ctx) {
 			}
 		})
 	}
+	// width: every counter and every figure of a snapshot is 64 bits wide (a narrower accumulator wraps and "decreases")
+	for _, tn := range []string{"Counter", "Stats"} {
+		if _, st := cx.P.Struct(statsPkg, tn); st != nil {
+			for i := 0; i < st.NumFields(); i++ {
+				f := st.Field(i)
+				if f.Name() == "_" {
+					continue
+				}
+				t := f.Type()
+				desc := t.String()
+				ok := false
+				switch {
+				case namedTypeName(t) == "Uint64" || namedTypeName(t) == "Int64":
+					ok = true // sync/atomic 64-bit
+				case ownerName(t) == "Adder":
+					ok = true
+				default:
+					if b, isB := t.Underlying().(*types.Basic); isB && (b.Kind() == types.Uint64 || b.Kind() == types.Int64) {
+						ok = true
+					}
+				}
+				cx.R.Check(ok, rule, "stats."+tn, "field "+fname(f)+" is 64 bits wide", "-", "counters accumulate in 64 bits ("+desc+")")
+			}
+		} else {
+			cx.R.Undecided(rule, "stats."+tn, "anchor", "-", "type does not resolve")
+		}
+	}
 	// Snapshot pairing
 	snap := cx.need(rule, statsPkg, "Counter", "Snapshot")
 	if snap != nil {
@@ -667,6 +695,11 @@ func classifyDuration(fn *ssa.Function, v ssa.Value, seen map[ssa.Value]bool) st
 		}
 		return "dynamic call of something else"
 	}
+	if u, ok := v.(*ssa.UnOp); ok && u.Op == token.MUL {
+		if fa, isFA := u.X.(*ssa.FieldAddr); isFA && paramIndexOf(fa.X) == 0 && namedTypeName(u.Type()) == "Duration" {
+			return "f" // a calculator that stores the fixed duration itself
+		}
+	}
 	tb := newInliningTermBuilder()
 	t := tb.of(v).String()
 	e := mk("-", mk("field:ExpiresAtNano", tVar("param1")), mk("field:SnapshotAtNano", tVar("param1"))).String()
@@ -680,119 +713,139 @@ func classifyDuration(fn *ssa.Function, v ssa.Value, seen map[ssa.Value]bool) st
 	return "term " + trunc(t, 80)
 }
 
-func ruleC12Calc(cx *Ctx) {
-	const rule = "C12.calc"
-	cx.R.Rule(rule, 15, "the built-in calculators implement their documented policy: creation-only returns the configured duration on create and the entry's remaining duration otherwise, write-reset returns it on create/update(/reload) and the remaining duration on reads (reload failures), access-reset always returns it; 'remaining' is Entry.ExpiresAfter / RefreshableAfter = deadline - snapshot time; the fixed-duration constructors hand the duration through unchanged")
-	type row struct {
-		typ    string
-		method string
-		want   string
+// calcCtor: the concrete calculator type a constructor returns and how the constructor's argument reaches it. The result
+// is followed through delegating constructors (X(d) -> XFunc(func(entry) { return d })). ok is false with a reason when
+// some returning path builds something else.
+func calcCtor(cx *Ctx, fn *ssa.Function, depth int) (typ string, why string) {
+	if depth > 4 {
+		return "", "constructor chain too deep"
 	}
-	rows := []row{
-		{"varExpiryCreating", "ExpireAfterCreate", "f"}, {"varExpiryCreating", "ExpireAfterUpdate", "keepE"}, {"varExpiryCreating", "ExpireAfterRead", "keepE"},
-		{"varExpiryWriting", "ExpireAfterCreate", "f"}, {"varExpiryWriting", "ExpireAfterUpdate", "f"}, {"varExpiryWriting", "ExpireAfterRead", "keepE"},
-		{"varExpiryAccessing", "ExpireAfterCreate", "f"}, {"varExpiryAccessing", "ExpireAfterUpdate", "f"}, {"varExpiryAccessing", "ExpireAfterRead", "f"},
-		{"varRefreshCreating", "RefreshAfterCreate", "f"}, {"varRefreshCreating", "RefreshAfterUpdate", "keepR"}, {"varRefreshCreating", "RefreshAfterReload", "keepR"}, {"varRefreshCreating", "RefreshAfterReloadFailure", "keepR"},
-		{"varRefreshWriting", "RefreshAfterCreate", "f"}, {"varRefreshWriting", "RefreshAfterUpdate", "f"}, {"varRefreshWriting", "RefreshAfterReload", "f"}, {"varRefreshWriting", "RefreshAfterReloadFailure", "keepR"},
-	}
-	for _, r := range rows {
-		fn := cx.need(rule, "", r.typ, r.method)
-		if fn == nil {
-			continue
+	argOK := func(v ssa.Value, mcOwner *ssa.Function) bool {
+		// the constructor's own parameter, or a closure that returns the captured parameter on every path
+		if paramIndexOf(v) == 0 {
+			return true
 		}
-		got, n := "", 0
-		allInstrs(fn, func(in ssa.Instruction) {
-			if ret, ok := in.(*ssa.Return); ok && len(ret.Results) == 1 {
-				n++
-				c := classifyDuration(fn, ret.Results[0], map[ssa.Value]bool{})
-				if got != "" && got != c {
-					got = "mixed(" + got + "," + c + ")"
-				} else {
-					got = c
-				}
-			}
-		})
-		cx.R.Check(n > 0 && got == r.want, rule, r.typ+"."+r.method, "returns "+r.want, cx.P.Pos(fn.Pos()), fmt.Sprintf("f = the configured duration function applied to the entry; keepE/keepR = the entry's remaining duration (found: %s)", got))
-	}
-	// constructors: X(duration) -> XFunc(const closure) -> &varX{f: f}
-	ctors := map[string]string{"ExpiryCreating": "varExpiryCreating", "ExpiryWriting": "varExpiryWriting", "ExpiryAccessing": "varExpiryAccessing", "RefreshCreating": "varRefreshCreating", "RefreshWriting": "varRefreshWriting"}
-	var cn []string
-	for c := range ctors {
-		cn = append(cn, c)
-	}
-	sort.Strings(cn)
-	for _, c := range cn {
-		ff := cx.need(rule, "", "", c+"Func")
-		cf := cx.need(rule, "", "", c)
-		if ff == nil || cf == nil {
-			continue
+		mc, isMC := v.(*ssa.MakeClosure)
+		if !isMC {
+			return false
 		}
-		// XFunc: returns a fresh varX whose f is the parameter
-		okF := false
-		allInstrs(ff, func(in ssa.Instruction) {
-			if st, ok := in.(*ssa.Store); ok {
-				if fa, isFA := st.Addr.(*ssa.FieldAddr); isFA && ownerName(fa.X.Type()) == ctors[c] && fname(fieldOf(st.Addr)) == "f" {
-					if _, isAlloc := fa.X.(*ssa.Alloc); isAlloc && paramIndexOf(st.Val) == 0 {
-						okF = true
-					}
+		cl := mc.Fn.(*ssa.Function)
+		nr, all := 0, true
+		allInstrs(cl, func(x ssa.Instruction) {
+			ret, ok := x.(*ssa.Return)
+			if !ok || len(ret.Results) != 1 {
+				return
+			}
+			nr++
+			fv, isFV := stripLoad(ret.Results[0]).(*ssa.FreeVar)
+			if !isFV {
+				all = false
+				return
+			}
+			for i, q := range cl.FreeVars {
+				if q == fv && paramIndexOf(mc.Bindings[i]) != 0 {
+					all = false
 				}
 			}
 		})
-		retOK := true
-		allInstrs(ff, func(in ssa.Instruction) {
-			if ret, ok := in.(*ssa.Return); ok && len(ret.Results) == 1 {
-				if al, isAlloc := stripConv(ret.Results[0]).(*ssa.Alloc); !isAlloc || ownerName(al.Type()) != ctors[c] {
-					retOK = false
+		return all && nr > 0
+	}
+	nret := 0
+	allInstrs(fn, func(in ssa.Instruction) {
+		ret, ok := in.(*ssa.Return)
+		if !ok || len(ret.Results) != 1 || why != "" {
+			return
+		}
+		nret++
+		t := ""
+		switch x := stripConv(ret.Results[0]).(type) {
+		case *ssa.Alloc:
+			t = ownerName(x.Type())
+			nst := 0
+			for _, u := range *x.Referrers() {
+				fa, isFA := u.(*ssa.FieldAddr)
+				if !isFA {
+					continue
 				}
-			}
-		})
-		cx.R.Check(okF && retOK, rule, c+"Func", "builds "+ctors[c]+" around its argument", cx.P.Pos(ff.Pos()), "the calculator returned is the "+ctors[c]+" whose duration function is the argument")
-		// X(duration): the function handed to XFunc (or stored) returns the captured duration on every path
-		okC, why := false, "no call of "+c+"Func with a constant-duration closure"
-		allInstrs(cf, func(in ssa.Instruction) {
-			if !isCallTo(in, ff) {
-				return
-			}
-			args := callArgs(in)
-			if len(args) != 1 {
-				return
-			}
-			mc, isMC := args[0].(*ssa.MakeClosure)
-			if !isMC {
-				why = "argument is not a closure"
-				return
-			}
-			cl := mc.Fn.(*ssa.Function)
-			all := true
-			nr := 0
-			allInstrs(cl, func(x ssa.Instruction) {
-				if ret, ok := x.(*ssa.Return); ok && len(ret.Results) == 1 {
-					nr++
-					v := stripLoad(ret.Results[0])
-					fv, isFV := v.(*ssa.FreeVar)
-					if !isFV {
-						all = false
-						return
-					}
-					for i, q := range cl.FreeVars {
-						if q == fv {
-							b := mc.Bindings[i]
-							if paramIndexOf(b) != 0 {
-								if al, isA := b.(*ssa.Alloc); !isA || paramIndexOf(al) != 0 {
-									all = false
-								}
-							}
+				for _, uu := range *fa.Referrers() {
+					if st, isS := uu.(*ssa.Store); isS && st.Addr == ssa.Value(fa) {
+						nst++
+						if !argOK(st.Val, fn) {
+							why = "a field of the calculator is not the constructor's argument"
 						}
 					}
 				}
-			})
-			if all && nr > 0 {
-				okC = true
-			} else {
-				why = "the closure does not return the captured duration unchanged"
 			}
-		})
-		cx.R.Check(okC, rule, c, "fixed duration handed through", cx.P.Pos(cf.Pos()), c+"(d) is "+c+"Func of a function that returns d ("+why+")")
+			if nst == 0 {
+				why = "the calculator is built without the constructor's argument"
+			}
+		case *ssa.Call:
+			g := x.Call.StaticCallee()
+			if g == nil || len(x.Call.Args) != 1 || !argOK(x.Call.Args[0], fn) {
+				why = "delegates to something that does not receive the duration unchanged"
+				return
+			}
+			t, why = calcCtor(cx, origin(g), depth+1)
+		default:
+			why = fmt.Sprintf("returns %T", x)
+		}
+		if typ != "" && t != typ && why == "" {
+			why = "returning paths build different calculators"
+		}
+		typ = t
+	})
+	if nret == 0 && why == "" {
+		why = "no returning path"
+	}
+	return typ, why
+}
+
+func ruleC12Calc(cx *Ctx) {
+	const rule = "C12.calc"
+	cx.R.Rule(rule, 15, "the built-in calculators implement their documented policy: creation-only returns the configured duration on create and the entry's remaining duration otherwise, write-reset returns it on create/update(/reload) and the remaining duration on reads (reload failures), access-reset always returns it; 'remaining' is Entry.ExpiresAfter / RefreshableAfter = deadline - snapshot time; the constructors hand their argument through unchanged; the table is checked on whatever type each constructor returns")
+	fams := []struct {
+		ctor    string
+		methods []string
+		want    []string
+	}{
+		{"ExpiryCreating", []string{"ExpireAfterCreate", "ExpireAfterUpdate", "ExpireAfterRead"}, []string{"f", "keepE", "keepE"}},
+		{"ExpiryWriting", []string{"ExpireAfterCreate", "ExpireAfterUpdate", "ExpireAfterRead"}, []string{"f", "f", "keepE"}},
+		{"ExpiryAccessing", []string{"ExpireAfterCreate", "ExpireAfterUpdate", "ExpireAfterRead"}, []string{"f", "f", "f"}},
+		{"RefreshCreating", []string{"RefreshAfterCreate", "RefreshAfterUpdate", "RefreshAfterReload", "RefreshAfterReloadFailure"}, []string{"f", "keepR", "keepR", "keepR"}},
+		{"RefreshWriting", []string{"RefreshAfterCreate", "RefreshAfterUpdate", "RefreshAfterReload", "RefreshAfterReloadFailure"}, []string{"f", "f", "f", "keepR"}},
+	}
+	for _, fam := range fams {
+		for _, cn := range []string{fam.ctor, fam.ctor + "Func"} {
+			cf := cx.need(rule, "", "", cn)
+			if cf == nil {
+				continue
+			}
+			typ, why := calcCtor(cx, cf, 0)
+			cx.R.Check(typ != "" && why == "", rule, cn, "argument handed through", cx.P.Pos(cf.Pos()), cn+" builds its calculator around its argument, unchanged ("+why+")")
+			if typ == "" {
+				continue
+			}
+			for i, m := range fam.methods {
+				fn := cx.P.Func("", typ, m)
+				if fn == nil || len(fn.Blocks) == 0 {
+					cx.R.Undecided(rule, cn, "method "+m, "-", "method "+m+" of the calculator type returned by "+cn+" does not resolve")
+					continue
+				}
+				got, n := "", 0
+				allInstrs(fn, func(in ssa.Instruction) {
+					if ret, ok := in.(*ssa.Return); ok && len(ret.Results) == 1 {
+						n++
+						c := classifyDuration(fn, ret.Results[0], map[ssa.Value]bool{})
+						if got != "" && got != c {
+							got = "mixed(" + got + "," + c + ")"
+						} else {
+							got = c
+						}
+					}
+				})
+				cx.R.Check(n > 0 && got == fam.want[i], rule, cn, m+" returns "+fam.want[i], cx.P.Pos(fn.Pos()), fmt.Sprintf("f = the configured duration (function applied to the entry); keepE/keepR = the entry's remaining duration (found: %s)", got))
+			}
+		}
 	}
 	// Entry arithmetic
 	for m, f := range map[string]string{"ExpiresAfter": "ExpiresAtNano", "RefreshableAfter": "RefreshableAtNano"} {
@@ -1072,4 +1125,340 @@ func ruleC10WrapLoad(cx *Ctx) {
 		cx.R.Check(ok, rule, "(*cache).wrapLoad", fmt.Sprintf("return #%d is the dispatch's error", nr), cx.P.where(ret), "the value returned is the error the wrapped dispatch returned (nil only where it was nil)")
 	})
 	cx.R.Check(nr > 0, rule, "(*cache).wrapLoad", "has a returning path", cx.P.Pos(wl.Pos()), "wrapLoad returns to its caller")
+}
+
+// ---------------------------------------------------------------------------------------------------------------
+// C15.swar / C15.hashidx: the table's meta-word arithmetic and bucket addressing
+// ---------------------------------------------------------------------------------------------------------------
+
+func constU64(cx *Ctx, pkg, name string) (uint64, bool) {
+	c := cx.P.Const(pkg, name)
+	if c == nil {
+		return 0, false
+	}
+	return constantUint64(c)
+}
+
+func singleReturnTerm(fn *ssa.Function) (*Term, int) {
+	var t *Term
+	n := 0
+	allInstrs(fn, func(in ssa.Instruction) {
+		if r, ok := in.(*ssa.Return); ok && len(r.Results) == 1 {
+			n++
+			t = newInliningTermBuilder().of(r.Results[0])
+		}
+	})
+	return t, n
+}
+
+func ruleC15Swar(cx *Ctx) {
+	const rule = "C15.swar"
+	cx.R.Rule(rule, 8, "the meta word arithmetic of the table is self-consistent: the empty marker has only its top bit set and a key's tag never has it; the all-empty word is the marker in every byte; the slot mask covers exactly the slots of a bucket; the byte search, first-index and set-byte helpers compute what their callers assume")
+	e, ok1 := constU64(cx, hmPkg, "emptyMetaSlot")
+	dm, ok2 := constU64(cx, hmPkg, "defaultMeta")
+	mm, ok3 := constU64(cx, hmPkg, "metaMask")
+	npb, ok4 := constU64(cx, hmPkg, "nodesPerMapBucket")
+	dmm, ok5 := constU64(cx, hmPkg, "defaultMetaMasked")
+	if !(ok1 && ok2 && ok3 && ok4 && ok5) {
+		cx.R.Undecided(rule, "hashmap", "constants", "-", "the meta word constants do not resolve")
+		return
+	}
+	cx.R.Check(e == 0x80, rule, "hashmap", "emptyMetaSlot is the top bit of a byte", "-", fmt.Sprintf("empty slots are found by their top bit (%#x)", e))
+	cx.R.Check(dm == 0x0101010101010101*e, rule, "hashmap", "defaultMeta = emptyMetaSlot in every byte", "-", fmt.Sprintf("%#x", dm))
+	cx.R.Check(npb >= 1 && npb <= 8 && mm == (uint64(1)<<(8*npb))-1, rule, "hashmap", "metaMask covers nodesPerMapBucket bytes", "-", fmt.Sprintf("%#x for %d slots", mm, npb))
+	cx.R.Check(dmm == dm&mm, rule, "hashmap", "defaultMetaMasked = defaultMeta & metaMask", "-", fmt.Sprintf("%#x", dmm))
+	if _, st := cx.P.Struct(hmPkg, "bucket"); st != nil {
+		okN := false
+		for i := 0; i < st.NumFields(); i++ {
+			if fname(st.Field(i)) == "nodes" {
+				if a, isA := st.Field(i).Type().Underlying().(*types.Array); isA && uint64(a.Len()) == npb {
+					okN = true
+				}
+			}
+		}
+		cx.R.Check(okN, rule, "hashmap.bucket", "nodes has nodesPerMapBucket slots", "-", "the slot array and the meta bytes describe the same slots")
+	}
+	p0 := tVar("param0")
+	type want struct {
+		name string
+		ok   func(t *Term) bool
+		doc  string
+	}
+	ones := tConst(0x0101010101010101)
+	wants := []want{
+		{"h2", func(t *Term) bool {
+			return t.Op == "&" && len(t.Args) == 2 && t.Args[0].isConst() && t.Args[0].C&e == 0 && t.Args[0].C <= 0xff && t.Args[1].String() == p0.String()
+		}, "a key's tag is the hash masked to bits below the empty marker's bit"},
+		{"broadcast", func(t *Term) bool { return t.String() == mk("*", ones, p0).String() }, "broadcast repeats the byte in all eight lanes"},
+		{"firstMarkedByteIndex", func(t *Term) bool {
+			tz := mk("call:TrailingZeros64", p0)
+			return t.String() == mk(">>", tz, tConst(3)).String() || t.String() == mk("/", tz, tConst(8)).String() // the count is never negative
+		}, "the first marked byte is trailing-zeros / 8"},
+		{"markZeroBytes", func(t *Term) bool {
+			return t.String() == mk("&", mk("-", p0, ones), mk("u^", p0), tConst(0x8080808080808080)).String()
+		}, "zero-byte search (w - 0x01..) & ^w & 0x80.."},
+		{"setByte", func(t *Term) bool {
+			sh := mk("<<", tVar("param2"), tConst(3))
+			return t.String() == mk("|", mk("&^", p0, mk("<<", tConst(0xff), sh)), mk("<<", tVar("param1"), sh)).String()
+		}, "setByte replaces byte idx of the word"},
+	}
+	for _, w := range wants {
+		fn := cx.need(rule, hmPkg, "", w.name)
+		if fn == nil {
+			continue
+		}
+		t, n := singleReturnTerm(fn)
+		cx.R.Check(n == 1 && t != nil && w.ok(t), rule, "hashmap."+w.name, "formula", cx.P.Pos(fn.Pos()), w.doc+" (found "+trunc(fmt.Sprint(t), 90)+")")
+	}
+}
+
+// baseOfField: for a value computed from x.<field> (through loads, len, conversions, arithmetic with constants) the
+// SSA value x; nil when it is not of that form.
+func baseOfField(v ssa.Value, field string, depth int) ssa.Value {
+	if depth > 12 {
+		return nil
+	}
+	v = stripConv(v)
+	switch x := v.(type) {
+	case *ssa.UnOp:
+		if x.Op == token.MUL {
+			if fa, ok := x.X.(*ssa.FieldAddr); ok {
+				if f := fieldOf(fa); f != nil && fname(f) == field {
+					return stripLoadOnce(fa.X)
+				}
+			}
+		}
+	case *ssa.Field:
+		if f := fieldOf(x); f != nil && fname(f) == field {
+			return x.X
+		}
+	case *ssa.Call:
+		if isBuiltinCall(x, "len") {
+			return baseOfField(x.Call.Args[0], field, depth+1)
+		}
+	case *ssa.BinOp:
+		if _, isC := x.Y.(*ssa.Const); isC {
+			return baseOfField(x.X, field, depth+1)
+		}
+	}
+	return nil
+}
+
+func stripLoadOnce(v ssa.Value) ssa.Value { return v }
+
+func ruleC15HashIdx(cx *Ctx) {
+	const rule = "C15.hashidx"
+	cx.R.Rule(rule, 4, "wherever a bucket is selected by a key's hash, the hash comes from the hasher of the very table whose bucket slice is indexed and masked with that slice's length - 1, and the tag stored with the node comes from the same hash value")
+	h1f := cx.need(rule, hmPkg, "", "h1")
+	h2f := cx.need(rule, hmPkg, "", "h2")
+	if h1f == nil || h2f == nil {
+		return
+	}
+	hashOf := func(v ssa.Value) (*ssa.Call, ssa.Value) {
+		// v = h1(hash) / h2(hash): returns the Hash invoke/call and the table it was taken from
+		c, ok := stripConv(v).(*ssa.Call)
+		if !ok || !(isCallTo(c, h1f) || isCallTo(c, h2f)) {
+			return nil, nil
+		}
+		h, ok := stripConv(c.Call.Args[0]).(*ssa.Call)
+		if !ok {
+			return nil, nil
+		}
+		name := ""
+		var recv ssa.Value
+		if h.Call.IsInvoke() {
+			name, recv = h.Call.Method.Name(), h.Call.Value
+		} else if sc := h.Call.StaticCallee(); sc != nil && len(h.Call.Args) > 0 {
+			name, recv = origin(sc).Name(), h.Call.Args[0]
+		}
+		if name != "Hash" {
+			return nil, nil
+		}
+		return h, baseOfField(recv, "hasher", 0)
+	}
+	n := 0
+	for _, fn := range cx.P.FuncsOfPkg(hmPkg) {
+		withClosures(fn, func(f *ssa.Function) {
+			allInstrs(f, func(in ssa.Instruction) {
+				ia, ok := in.(*ssa.IndexAddr)
+				if !ok {
+					return
+				}
+				tb := baseOfField(ia.X, "buckets", 0)
+				if tb == nil {
+					return
+				}
+				// index = (len(buckets)-1) & h1(hash)  (either operand order)
+				b, isB := stripConv(ia.Index).(*ssa.BinOp)
+				if !isB || b.Op != token.AND {
+					return // walks by position (resize, Range, constructors): not addressed by hash
+				}
+				var hc *ssa.Call
+				var ht, lt ssa.Value
+				for _, side := range [][2]ssa.Value{{b.X, b.Y}, {b.Y, b.X}} {
+					if h, t := hashOf(side[0]); h != nil {
+						hc, ht = h, t
+						lt = baseOfField(side[1], "buckets", 0)
+					}
+				}
+				if hc == nil {
+					return
+				}
+				n++
+				cx.R.Check(ht != nil && ht == tb && lt == tb, rule, funcName(f), fmt.Sprintf("bucket index #%d", n), cx.P.where(in), "hasher, length mask and bucket slice belong to the same table value")
+			})
+		})
+	}
+	cx.R.Check(n >= 3, rule, "hashmap", "hash-addressed bucket selections found", "-", fmt.Sprintf("%d", n))
+	// the tag handed to appendToBucket / setByte is h2 of a hash of the destination table's hasher
+	ab := cx.P.Func(hmPkg, "", "appendToBucket")
+	if ab != nil {
+		k := 0
+		for _, fn := range cx.P.FuncsOfPkg(hmPkg) {
+			withClosures(fn, func(f *ssa.Function) {
+				allInstrs(f, func(in ssa.Instruction) {
+					if !isCallTo(in, ab) {
+						return
+					}
+					k++
+					args := callArgs(in)
+					h, ht := hashOf(args[0])
+					// the destination bucket must be addressed with the same hash value
+					same := false
+					if h != nil {
+						if ia, ok := stripLoad(args[2]).(*ssa.IndexAddr); ok {
+							if b, isB := stripConv(ia.Index).(*ssa.BinOp); isB {
+								for _, s := range []ssa.Value{b.X, b.Y} {
+									if h2c, _ := hashOf(s); h2c == h {
+										same = baseOfField(ia.X, "buckets", 0) == ht
+									}
+								}
+							}
+						}
+					}
+					cx.R.Check(same, rule, funcName(f), fmt.Sprintf("appendToBucket #%d tag and bucket from one hash", k), cx.P.where(in), "the tag byte and the destination bucket are derived from the same hash of the destination table's hasher")
+				})
+			})
+		}
+	}
+}
+
+func constantUint64(c *types.Const) (uint64, bool) {
+	if c == nil || c.Val().Kind() != constant.Int {
+		return 0, false
+	}
+	return constant.Uint64Val(c.Val())
+}
+
+// ---------------------------------------------------------------------------------------------------------------
+// C08.tableonce: the in-flight table of a group is created at most once
+// ---------------------------------------------------------------------------------------------------------------
+
+func ruleC08TableOnce(cx *Ctx) {
+	const rule = "C08.tableonce"
+	cx.R.Rule(rule, 1, "the lazily created in-flight table is published at most once per group: every assignment of group.calls is a compare-and-swap from nil, runs inside sync.Once.Do, or happens with a mutex of the group held after re-testing the group's state under that mutex, and a separate 'initialised' flag is set only after the table is in place - a second table would hide the records registered in the first")
+	callsF := cx.needField(rule, "", "group", "calls")
+	if callsF == nil {
+		return
+	}
+	n := 0
+	for _, fn := range cx.P.FuncsOfPkg("") {
+		fn := fn
+		allInstrs(fn, func(in ssa.Instruction) {
+			kind := ""
+			if st, ok := in.(*ssa.Store); ok && sameField(fieldOf(st.Addr), callsF) {
+				if _, isFA := st.Addr.(*ssa.FieldAddr); isFA {
+					kind = "plain"
+				}
+			}
+			for _, op := range []string{"Store", "Swap", "CompareAndSwap"} {
+				if isStdMethod(in, "sync/atomic", "", op) && sameField(recvField(in), callsF) {
+					kind = op
+				}
+			}
+			if kind == "" {
+				return
+			}
+			n++
+			key := fmt.Sprintf("assignment #%d of the in-flight table (%s)", n, kind)
+			if kind == "CompareAndSwap" {
+				args := callArgs(in)
+				cx.R.Check(len(args) == 2 && isNilConst(args[0]), rule, funcName(fn), key, cx.P.where(in), "the table is installed by a compare-and-swap from nil")
+				return
+			}
+			// inside sync.Once.Do?
+			if fn.Parent() != nil {
+				once := false
+				for _, u := range closureUses(fn) {
+					if isStdMethod(u, "sync", "Once", "Do") {
+						once = true
+					}
+				}
+				if once {
+					cx.R.OK(rule, funcName(fn), key, cx.P.where(in), "runs inside sync.Once.Do")
+					return
+				}
+			}
+			// under a mutex of the group, after a re-test evaluated under that mutex
+			var lock ssa.Instruction
+			allInstrs(fn, func(l ssa.Instruction) {
+				if isStdMethod(l, "sync", "", "Lock") && instrDominates(l, in) {
+					if f := recvField(l); f != nil && ownerName(fieldOwnerType(callCommon(l))) == "group" {
+						lock = l
+					}
+				}
+			})
+			retested := false
+			var flag *types.Var
+			if lock != nil {
+				for _, g := range guardsAt(in.Block()) {
+					c, _ := stripNot(g.Cond)
+					ci, isI := c.(ssa.Instruction)
+					if !isI || !instrDominates(lock, ci) {
+						continue
+					}
+					if call, isCall := c.(*ssa.Call); isCall && isStdMethod(call, "sync/atomic", "", "Load") {
+						if f := recvField(call); f != nil && ownerName(fieldOwnerType(call.Common())) == "group" {
+							retested = true
+							if !sameField(f, callsF) {
+								flag = f
+							}
+						}
+					}
+					if v, _, okN := nilCmp(c); okN && sameField(fieldOf(v), callsF) {
+						retested = true
+					}
+				}
+			}
+			cx.R.Check(lock != nil && retested, rule, funcName(fn), key, cx.P.where(in), "the table is assigned with a mutex of the group held and the group's state re-tested under it (check-then-store without it lets two first loads each install a table)")
+			if flag != nil {
+				allInstrs(fn, func(s ssa.Instruction) {
+					if isStdMethod(s, "sync/atomic", "", "Store") && sameField(recvField(s), flag) {
+						cx.R.Check(instrDominates(in, s), rule, funcName(fn), "flag "+fname(flag)+" set after the table is in place", cx.P.where(s), "readers that see the flag must see the table")
+					}
+				})
+			}
+		})
+	}
+	cx.R.Check(n > 0, rule, "group", "table assignment found", "-", "the group's in-flight table is created somewhere")
+}
+
+// closureUses: the instructions that take the anonymous function fn as an operand (through its MakeClosure).
+func closureUses(fn *ssa.Function) []ssa.Instruction {
+	var out []ssa.Instruction
+	p := fn.Parent()
+	if p == nil {
+		return nil
+	}
+	allInstrs(p, func(in ssa.Instruction) {
+		if mc, ok := in.(*ssa.MakeClosure); ok && mc.Fn == ssa.Value(fn) {
+			out = append(out, usesOf(mc)...)
+		}
+		for _, op := range in.Operands(nil) {
+			if *op == ssa.Value(fn) {
+				out = append(out, in)
+			}
+		}
+	})
+	return out
 }
